@@ -1,0 +1,40 @@
+//go:build verif
+
+package table
+
+// VerifInfo is a white-box snapshot of a table used by runtime verification.
+type VerifInfo struct {
+	Coefficient uint64
+	Offset      uint64
+	Allocated   uint64
+	Inuse       uint64
+	Garbage     uint64
+	State       State
+	HKeys       int
+	OffsetIndex uint64
+	RecycledAt  int64
+}
+
+// VerifInfo returns a white-box snapshot of the table.
+func (t *Table) VerifInfo() VerifInfo {
+	return VerifInfo{
+		Coefficient: t.coefficient,
+		Offset:      t.offset,
+		Allocated:   t.allocated,
+		Inuse:       t.inuse,
+		Garbage:     t.garbage,
+		State:       t.state,
+		HKeys:       len(t.hkeys),
+		OffsetIndex: t.offsetIndex.GetCardinality(),
+		RecycledAt:  t.recycledAt,
+	}
+}
+
+// VerifHKeys returns the hkey -> offset index.
+func (t *Table) VerifHKeys() map[uint64]uint64 {
+	res := make(map[uint64]uint64, len(t.hkeys))
+	for k, v := range t.hkeys {
+		res[k] = v
+	}
+	return res
+}
